@@ -390,6 +390,16 @@ func (p *printer) stmt(ind int, s Stmt) {
 		p.line(ind, "Schreibe "+printStmtName(x.X.Ty())+" "+P(x.X)+".")
 	case *Todo:
 		p.line(ind, "...")
+	case *FuncDecl:
+		if ind != 0 {
+			panic("FuncDecl below the top level")
+		}
+		p.funcDecl(x.F)
+	case *FuncDef:
+		if ind != 0 {
+			panic("FuncDef below the top level")
+		}
+		p.funcDef(x.F)
 	default:
 		panic(fmt.Sprintf("stmt: unhandled %T", s))
 	}
@@ -416,6 +426,53 @@ func join(names []string) string {
 		return names[0]
 	}
 	return strings.Join(names[:len(names)-1], ", ") + " und " + names[len(names)-1]
+}
+
+// funcDecl prints the declaration of f: complete, or a forward declaration if f.Forward.
+func (p *printer) funcDecl(f *Func) {
+	h := "Die Funktion " + f.Name
+	if len(f.Params) == 1 {
+		h += " mit dem Parameter " + f.Params[0].Name + " vom Typ " + f.Params[0].T.Param(f.Params[0].Ref)
+	} else if len(f.Params) > 1 {
+		var ns, ts []string
+		for _, pa := range f.Params {
+			ns = append(ns, pa.Name)
+			ts = append(ts, pa.T.Param(pa.Ref))
+		}
+		h += " mit den Parametern " + join(ns) + " vom Typ " + join(ts)
+	}
+	if len(f.Params) > 0 {
+		h += ","
+	}
+	if f.Ret.K == KVoid {
+		h += " gibt nichts zurück,"
+	} else {
+		h += " gibt " + f.Ret.Akk() + " zurück,"
+	}
+	a := f.Name
+	for _, pa := range f.Params {
+		a += " <" + pa.Name + ">"
+	}
+	if f.Forward {
+		p.line(0, h)
+		p.line(0, "wird später definiert")
+		p.line(0, "und kann so benutzt werden:")
+		p.line(1, "\""+a+"\"")
+		p.line(0, "")
+		return
+	}
+	p.line(0, h+" macht:")
+	p.block(1, f.Body)
+	p.line(0, "Und kann so benutzt werden:")
+	p.line(1, "\""+a+"\"")
+	p.line(0, "")
+}
+
+// funcDef prints the definition of a forward-declared function.
+func (p *printer) funcDef(f *Func) {
+	p.line(0, "Die Funktion "+f.Name+" macht:")
+	p.block(1, f.Body)
+	p.line(0, "")
 }
 
 // Source renders the whole program.
@@ -454,34 +511,7 @@ func (pr *Program) Source() string {
 		p.stmt(0, s)
 	}
 	for _, f := range pr.Funcs {
-		h := "Die Funktion " + f.Name
-		if len(f.Params) == 1 {
-			h += " mit dem Parameter " + f.Params[0].Name + " vom Typ " + f.Params[0].T.Param(f.Params[0].Ref)
-		} else if len(f.Params) > 1 {
-			var ns, ts []string
-			for _, pa := range f.Params {
-				ns = append(ns, pa.Name)
-				ts = append(ts, pa.T.Param(pa.Ref))
-			}
-			h += " mit den Parametern " + join(ns) + " vom Typ " + join(ts)
-		}
-		if len(f.Params) > 0 {
-			h += ","
-		}
-		if f.Ret.K == KVoid {
-			h += " gibt nichts zurück, macht:"
-		} else {
-			h += " gibt " + f.Ret.Akk() + " zurück, macht:"
-		}
-		p.line(0, h)
-		p.block(1, f.Body)
-		p.line(0, "Und kann so benutzt werden:")
-		a := f.Name
-		for _, pa := range f.Params {
-			a += " <" + pa.Name + ">"
-		}
-		p.line(1, "\""+a+"\"")
-		p.line(0, "")
+		p.funcDecl(f)
 	}
 	for _, s := range pr.Main {
 		p.stmt(0, s)
